@@ -533,7 +533,46 @@ def explore(ctx, seed_shift=0):
         v = dict(v)
         v["case"] = v.pop("witness_case")
         out_v.append(v)
+    try:
+        out_v = [shrink(v) for v in out_v]
+    finally:
+        sc.cleanup_scratch()
     return {"violations": out_v, "disagreements": disagreements[:3], "coverage": cov}
+
+
+def shrink(v):
+    """greedy shrink of a round-trip witness: direct store, str path, default encoding, shorter str/bytes value"""
+    w = dict(v.get("case", {}))
+    if w.get("kind") != "roundtrip":
+        return v
+
+    def bad(w2):
+        try:
+            return replay(None, {"witness": {"case": w2}})
+        except Exception:       # noqa: BLE001
+            return None
+
+    if bad(w) is None:
+        return v
+    for key, small in (("mounted", None), ("pathlib", False), ("encoding", None)):
+        if w.get(key) != small:
+            w2 = dict(w)
+            w2[key] = small
+            if bad(w2):
+                w = w2
+    value = dec_value(w["value"])
+    if isinstance(value, (str, bytes)) and len(value) <= 4096:
+        changed = True
+        while changed and len(value) > 0:
+            changed = False
+            for i in range(len(value)):
+                cand = value[:i] + value[i + 1:]
+                w2 = dict(w)
+                w2["value"] = enc_value(cand)
+                if bad(w2):
+                    value, w, changed = cand, w2, True
+                    break
+    return {"property": "C12", "what": "%s(encoding=%r): %s" % (w["store"], w.get("encoding"), bad(w)), "case": w}
 
 
 def search(ctx, broken):
